@@ -187,21 +187,79 @@ Qed.
 Definition no_children (tab : list kline) (k : kline) : bool :=
   negb (existsb (fun m => beq (k_parent m) (k_id k) && negb (beq (k_id m) (k_id k))) tab).
 
+(* ------------------------------------------------------------------ hidden mounts *)
+Lemma hidden_at_app tab k t :
+  hidden_at (tab ++ [k]) t =
+  if beq (k_mp k) t then false else if under (k_mp k) t then true else hidden_at tab t.
+Proof. unfold hidden_at. rewrite fold_left_app. reflexivity. Qed.
+
+(* after the topmost line at t only the later lines matter *)
+Lemma hidden_at_split l1 k l2 t : k_mp k = t -> (forall m, In m l2 -> beq (k_mp m) t = false) ->
+  hidden_at (l1 ++ k :: l2) t = existsb (fun m => under (k_mp m) t) l2.
+Proof.
+  intros Hk. induction l2 as [|x l2 IH] using rev_ind; intros Hl2.
+  - change (l1 ++ [k]) with (l1 ++ [k]). rewrite hidden_at_app, Hk, beq_refl. reflexivity.
+  - change (l1 ++ k :: l2 ++ [x]) with (l1 ++ (k :: l2) ++ [x]). rewrite app_assoc, hidden_at_app.
+    rewrite (Hl2 x) by (apply in_or_app; right; now left).
+    rewrite existsb_app. cbn [existsb]. rewrite orb_false_r.
+    rewrite IH by (intros m Hm; apply Hl2; apply in_or_app; now left).
+    destruct (under (k_mp x) t); [now rewrite orb_true_r|now rewrite orb_false_r].
+Qed.
+
+(* [nocov P tab] (Model/Kernel.v) is closed under deleting lines *)
+Lemma nocov_del P l1 k l2 : nocov P (l1 ++ k :: l2) = true -> nocov P (l1 ++ l2) = true.
+Proof.
+  induction l1 as [|x l1 IH]; cbn [app nocov].
+  - rewrite andb_true_iff. tauto.
+  - rewrite !andb_true_iff, !orb_true_iff, !forallb_app. cbn [forallb]. rewrite !andb_true_iff.
+    intros [[H|[H1 [_ H2]]] H3]; auto.
+Qed.
+Lemma dels_nocov P Q a b0 : dels Q a b0 -> nocov P a = true -> nocov P b0 = true.
+Proof. induction 1; auto. intros H1. apply IHdels. eapply nocov_del; eauto. Qed.
+Lemma nocov_mono (P Q : kline -> bool) tab : (forall k, P k = true -> Q k = true) ->
+  nocov Q tab = true -> nocov P tab = true.
+Proof.
+  intros H. induction tab as [|k r IH]; cbn [nocov]; [reflexivity|].
+  rewrite !andb_true_iff, !orb_true_iff, !negb_true_iff. intros [[Hq|Hf] Hr]; (split; [|now apply IH]).
+  - left. destruct (P k) eqn:E; [|reflexivity]. rewrite (H k E) in Hq. discriminate.
+  - now right.
+Qed.
+Lemma nocov_app_inv P l1 k l2 : nocov P (l1 ++ k :: l2) = true -> P k = true ->
+  forall m, In m l2 -> under (k_mp m) (k_mp k) = false.
+Proof.
+  induction l1 as [|x l1 IH]; cbn [app nocov]; rewrite !andb_true_iff.
+  - intros [H _] Hk m Hm. rewrite Hk in H. cbn in H. rewrite forallb_forall in H.
+    now apply negb_true_iff, H.
+  - intros [_ H]. now apply IH.
+Qed.
+
+(* a selected mountpoint of such a table is not hidden *)
+Lemma nocov_not_hidden P tab t k : nocov P tab = true -> top_at tab t = Some k -> P k = true ->
+  hidden_at tab t = false.
+Proof.
+  intros Hn Htop Hk. destruct (top_at_spec _ _ _ Htop) as (l1 & l2 & -> & Hmp & Hl2).
+  rewrite (hidden_at_split l1 k l2 t Hmp Hl2). apply existsb_false_forall. intros m Hm.
+  rewrite <- Hmp. eapply nocov_app_inv; eauto.
+Qed.
+
 Lemma kumount_spec ks t fl :
   kumount ks t fl =
   match top_at (ks_tab ks) t with
   | None => KErr
-  | Some k => if no_children (ks_tab ks) k
+  | Some k => if negb (hidden_at (ks_tab ks) t) && no_children (ks_tab ks) k
               then KOk (MkKS (remove_id (ks_tab ks) (k_id k)) (ks_nextid ks) (ks_nextdev ks)) else KErr
   end.
-Proof. unfold kumount, no_children. destruct (top_at (ks_tab ks) t); [|reflexivity]. now destruct (existsb _ _). Qed.
+Proof.
+  unfold kumount, no_children. destruct (top_at (ks_tab ks) t); [|reflexivity].
+  destruct (hidden_at _ _); [reflexivity|]. now destruct (existsb _ _).
+Qed.
 
 Lemma kumount_ok ks t fl ks' : NoDup (kids (ks_tab ks)) -> kumount ks t fl = KOk ks' ->
   exists l1 k l2, ks_tab ks = l1 ++ k :: l2 /\ k_mp k = t /\ ks_tab ks' = l1 ++ l2
     /\ ks_nextid ks' = ks_nextid ks /\ ks_nextdev ks' = ks_nextdev ks.
 Proof.
   intros ND. rewrite kumount_spec. destruct (top_at (ks_tab ks) t) as [k|] eqn:E; [|discriminate].
-  destruct (no_children _ k); [|discriminate]. intros H. injection H as <-.
+  destruct (negb _ && no_children _ k); [|discriminate]. intros H. injection H as <-.
   destruct (top_at_spec _ _ _ E) as (l1 & l2 & Ht & Hk & _). exists l1, k, l2. cbn.
   rewrite Ht in ND |- *. rewrite remove_id_unique by assumption. auto.
 Qed.
@@ -305,7 +363,8 @@ Definition um_legal (region : bytes -> bool) (tab : list kline) (t : bytes) : bo
 
 (* the core: a descending list that is, as a multiset, the mountpoints at or below d can be
    unmounted in order; every call is legal; only lines at or below d disappear; if every call
-   succeeds nothing at or below d is left; with well-formed parent ids every call succeeds *)
+   succeeds nothing at or below d is left; with well-formed parent ids and no covered line at or
+   below d every call succeeds *)
 Lemma ku_seq_core d (region : bytes -> bool) : good_root d = true ->
   (forall t, at_or_below d t = true -> region t = true) ->
   forall ts ks, desc ts ->
@@ -317,7 +376,7 @@ Lemma ku_seq_core d (region : bytes -> bool) : good_root d = true ->
     /\ ks_nextid ks' = ks_nextid ks /\ ks_nextdev ks' = ks_nextdev ks
     /\ (ok = true -> iss = ts /\ forall m, In m (ks_tab ks') -> at_or_below d (k_mp m) = false)
     /\ (ok = false -> iss <> [])
-    /\ (pwf (ks_tab ks) = true -> ok = true).
+    /\ (pwf (ks_tab ks) = true -> nocov (fun k => at_or_below d (k_mp k)) (ks_tab ks) = true -> ok = true).
 Proof.
   intros Hd Hreg. induction ts as [|t r IH]; intros ks Hdesc Hperm ND.
   - exists true, ks, []. cbn. repeat split; auto; try constructor; try discriminate.
@@ -359,13 +418,16 @@ Proof.
       split; [congruence|]. split; [congruence|]. split.
       { intros Eok. destruct (Hok Eok) as [-> Hrem]. split; [reflexivity|exact Hrem]. }
       split; [discriminate|].
-      intros Hp. apply Hpw. rewrite Htab1. rewrite Htab in Hp. eapply pwf_del; eauto.
+      intros Hp Hnc. apply Hpw; rewrite Htab1; [rewrite Htab in Hp; eapply pwf_del; eauto|].
+      rewrite Htab in Hnc. eapply nocov_del; eauto.
     + exists false, ks, [t]. split; [reflexivity|].
       split. { cbn [legal_seq]. rewrite Hlegal, E. reflexivity. }
       split; [constructor|].
       split; [reflexivity|]. split; [reflexivity|]. split; [discriminate|]. split; [discriminate|].
-      intros Hp. exfalso. rewrite kumount_spec, Hk in E.
-      rewrite (no_children_top _ _ _ Hp ND Htr Hk Hun) in E. discriminate.
+      intros Hp Hnc. exfalso. rewrite kumount_spec, Hk in E.
+      rewrite (no_children_top _ _ _ Hp ND Htr Hk Hun) in E.
+      rewrite (nocov_not_hidden _ _ _ _ Hnc Hk) in E; [discriminate|].
+      destruct (top_at_spec _ _ _ Hk) as (? & ? & _ & -> & _). exact Htd.
 Qed.
 
 Lemma ku_seq_wf ts : forall ks ok ks' iss, ku_seq ks ts = (ok, ks', iss) ->
@@ -375,7 +437,7 @@ Proof.
   - intros H. injection H as _ <- _. auto.
   - rewrite kumount_spec. destruct (top_at (ks_tab ks) t) as [k|].
     2:{ intros H. injection H as _ <- _. auto. }
-    destruct (no_children (ks_tab ks) k).
+    destruct (negb _ && no_children (ks_tab ks) k).
     2:{ intros H. injection H as _ <- _. auto. }
     destruct (ku_seq _ r) as [[ok1 k2] iss1] eqn:E. intros H. injection H as _ <- _. intros Hwf.
     eapply IH; [exact E|]. cbn [ks_tab]. unfold wf_table, remove_id in *.
@@ -414,7 +476,7 @@ Proof.
   - intros H. injection H as _ <- _. apply incl_refl.
   - rewrite kumount_spec. destruct (top_at (ks_tab ks) t) as [k|].
     2:{ intros H. injection H as _ <- _. apply incl_refl. }
-    destruct (no_children (ks_tab ks) k).
+    destruct (negb _ && no_children (ks_tab ks) k).
     2:{ intros H. injection H as _ <- _. apply incl_refl. }
     destruct (ku_seq _ r) as [[ok1 k2] iss1] eqn:E. intros H. injection H as _ <- _.
     eapply incl_tran; [eapply IH; exact E|]. cbn [ks_tab]. unfold remove_id. intros x Hx.
